@@ -331,11 +331,11 @@ def case_hash(case):
     ir = IR(P.layout)
     res = {"paths": 0, "violations": [], "case": list(case)}
 
-    def entry(I):
+    def entry(I, mode="any"):
         I.env["hash_order"] = "insertion"
         files = hash_ir(I, ir, lang, multi, tree)
         m = collect(I, files)
-        I.env["hash_order"] = "any"
+        I.env["hash_order"] = mode
         cell = [m]
         I.call_static("reconcile::reconcile_aliases", [Ref(cell, 0)])
         at = I.call_static("parse::all_types", [Ref(cell, 0)]) if multi else RMap("HashMap")
@@ -346,6 +346,20 @@ def case_hash(case):
             outs.append((pystr(cn.fields[0]), ok, bharness.concrete_text(w)))
         return outs
 
+    first = None
+    for mode in ("insertion", "reversed", "rotated"):     # whole-run orders first, see case_hash_ws
+        for kind, out, pc in I.explore(lambda I, mode=mode: entry(I, mode), max_paths=20):
+            res["paths"] += 1
+            if kind == "panic":
+                res["violations"].append({"kind": "panic", "msg": out.msg}); break
+            if first is None:
+                first = out
+            elif out != first:
+                d = [(a[0], a[2][-80:], b[2][-80:]) for a, b in zip(first, out) if a != b]
+                res["violations"].append({"kind": "hash-order-dependent", "diff": d[:1], "order": mode})
+                break
+    if res["violations"]:
+        return finish_case(I, res)
     first = None
     try:
         for kind, out, pc in I.explore(entry, max_paths=cap):
@@ -383,6 +397,25 @@ def case_hash_ws(case):
         return c14.run_pipeline(I, lang, files, True, [ord("F"), ord("x")])
 
     first = None
+    # three whole-run orders first (insertion / reversed / rotated for EVERY hash container): the exhaustive exploration below varies the
+    # last containers first and may hit its cap before it ever changes the order of an early one
+    for mode in ("insertion", "reversed", "rotated"):
+        def entry_mode(I, mode=mode):
+            I.env["hash_order"] = mode
+            return c14.run_pipeline(I, lang, files, True, [ord("F"), ord("x")])
+        for kind, out, pc in I.explore(entry_mode, max_paths=20):
+            res["paths"] += 1
+            if kind == "panic":
+                res["violations"].append({"kind": "panic", "msg": out.msg}); break
+            o = {c: "".join(chr(x) for x in t[1]) for c, t in out.items()}
+            if first is None:
+                first = o
+            elif o != first:
+                d = [(c, first.get(c, "")[-80:], o.get(c, "")[-80:]) for c in sorted(set(first) | set(o)) if first.get(c) != o.get(c)]
+                res["violations"].append({"kind": "hash-order-dependent", "diff": d[:1], "order": mode})
+                break
+    if res["violations"]:
+        return finish_case(I, res)
     try:
         for kind, out, pc in I.explore(entry, max_paths=CAP):
             res["paths"] += 1
@@ -438,7 +471,7 @@ def run(rep, tier, only=None):
     if tier == "thorough":
         wcases = [(l, f, p) for l in ("typescript", "kotlin") for f in _c14.FORMS for p in (("field", "map-value") if l == "typescript" else ("enum-struct",))]
     else:
-        wcases = [("typescript", "single", "field"), ("kotlin", "same-name-c", "map-value"), ("typescript", "same-name-both-imported", "field"), ("kotlin", "same-name-both-imported", "vec")]
+        wcases = [("typescript", "single", "field"), ("kotlin", "same-name-c", "map-value"), ("typescript", "same-name-both-imported", "field"), ("kotlin", "same-name-both-imported", "vec"), ("typescript", "same-name-two-modules", "field")]
     rep.bounds["hash-ws"] = "the folder-mode pipeline from source text on %d of the C14 workspace templates under every hash iteration order, up to 700 paths each (beyond: a prefix of the orders, reported as not exhaustive)" % len(wcases)
     groups = [("fold", "case_fold", cases), ("hash", "case_hash", hcases), ("hash-ws", "case_hash_ws", wcases)]
     for gname, fn, cs in groups:
